@@ -166,8 +166,13 @@ def rand_value(rng, dtype):
 
 
 def gen_matrix(rng, kind=None, dtype='float64', max_rows=9, max_cols=8,
-               big_entries=(110, 420)):
-    """a dense numpy matrix of dtype with the named structure"""
+               big_entries=None):
+    """a dense numpy matrix of dtype with the named structure; `big` has
+    1.1 .. 4.2 times the CURRENT minimum block size of the transposition
+    stored entries, so that the enforced minimum sizes are crossed"""
+    if big_entries is None:
+        mn = consts()['min_any']
+        big_entries = (mn + mn // 10 + 1, 4 * mn + mn // 5 + 2)
     kind = kind or rng.choice(KINDS)
     n = rng.randint(1, max_rows)
     m = rng.randint(1, max_cols)
@@ -370,10 +375,28 @@ def nbytes(dtype):
 # operation by operation); the rounding and integer part is the model's
 # ---------------------------------------------------------------------------
 
+_CONSTS = {}
+
+
+def consts():
+    """the constants of the budget arithmetic as they stand in the CURRENT
+    source (ctmverif.sparse_translate): min chunk sizes, dex_bytes, join
+    block, divisor of the budget split.  The suites aim their sizes and their
+    float replica at these, never at the pinned literals."""
+    if not _CONSTS:
+        from ctmverif import sparse_translate
+        c = sparse_translate.extract()
+        _CONSTS.update(c)
+        _CONSTS['min_any'] = max(1, c['count_min'], c['load_min'],
+                                 c['el_min'])
+        _CONSTS['split'] = c['load_split_den'] or 3
+    return _CONSTS
+
+
 def budget_json(max_gb, data_dtype, indptr_dtype, indices_dtype):
     """what transpose_sparse_matrix_on_disk(max_gb=max_gb) starts from"""
     g = 0.8 * max_gb
-    load = g / 3
+    load = g / consts()['split']
     el = g - load
     return {'countGb': frac(g), 'loadGb': frac(load), 'elGb': frac(el),
             'dataBytes': 0 if data_dtype is None else nbytes(data_dtype),
@@ -384,42 +407,48 @@ def budget_json(max_gb, data_dtype, indptr_dtype, indices_dtype):
 def budget_py(max_gb, data_dtype, indptr_dtype, indices_dtype):
     """independent evaluation of the whole budget arithmetic with Python
     floats/ints (used to aim the generators and to cross-check the model)"""
+    k = consts()
     g = 0.8 * max_gb
-    load = g / 3
+    load = g / k['split']
     el = g - load
     db = 0 if data_dtype is None else nbytes(data_dtype)
     pb = nbytes(indptr_dtype)
     ib = nbytes(indices_dtype)
-    lo_count = max(100, (int(round(g * 1024 ** 3)) // ib) // 2)
-    lo = max(100, int(round(load * 1024 ** 3)) // (db + pb + ib + 8))
-    e = max(100, int(round(el * 1024 ** 3)) // (db + max(ib, pb)))
+    lo_count = max(k['count_min'], (int(round(g * 1024 ** 3)) // ib) // 2)
+    lo = max(k['load_min'], int(round(load * 1024 ** 3)) //
+             (db + pb + ib + k['dex_bytes']))
+    e = max(k['el_min'], int(round(el * 1024 ** 3)) // (db + max(ib, pb)))
     return {'loCount': lo_count, 'lo': lo, 'el': e}
 
 
 def max_gb_for_lo(lo, data_dtype, indptr_dtype, indices_dtype):
     """a max_gb for which the fill pass loads about `lo` entries at a time"""
     db = 0 if data_dtype is None else nbytes(data_dtype)
-    lb = db + nbytes(indptr_dtype) + nbytes(indices_dtype) + 8
-    return 3.0 * (lo + 0.5) * lb / (1024.0 ** 3) / 0.8
+    lb = db + nbytes(indptr_dtype) + nbytes(indices_dtype) + \
+        consts()['dex_bytes']
+    return float(consts()['split']) * (lo + 0.5) * lb / (1024.0 ** 3) / 0.8
 
 
 def max_gb_for_el(el, data_dtype, indptr_dtype, indices_dtype):
     """a max_gb for which about `el` elements are written per block"""
     db = 0 if data_dtype is None else nbytes(data_dtype)
     eb = db + max(nbytes(indptr_dtype), nbytes(indices_dtype))
-    return 1.5 * (el + 0.5) * eb / (1024.0 ** 3) / 0.8
+    sp = float(consts()['split'])
+    return (sp / (sp - 1.0) if sp > 1 else 1.0) * (el + 0.5) * eb / \
+        (1024.0 ** 3) / 0.8
 
 
 def pick_max_gb(rng, nnz, data_dtype, indptr_dtype, indices_dtype):
     """budgets aimed at putting load-chunk / block borders inside the data"""
     r = rng.random()
+    mn = consts()['min_any']
     if r < 0.3:
         return rng.choice([1e-12, 1e-9, 0.0, 1e-7])
-    if r < 0.55 and nnz > 100:
-        return max_gb_for_el(rng.randint(100, max(101, nnz)), data_dtype,
+    if r < 0.55 and nnz > mn:
+        return max_gb_for_el(rng.randint(mn, max(mn + 1, nnz)), data_dtype,
                              indptr_dtype, indices_dtype)
-    if r < 0.8 and nnz > 100:
-        return max_gb_for_lo(rng.randint(100, max(101, nnz)), data_dtype,
+    if r < 0.8 and nnz > mn:
+        return max_gb_for_lo(rng.randint(mn, max(mn + 1, nnz)), data_dtype,
                              indptr_dtype, indices_dtype)
     return rng.choice([1e-6, 1e-5, 0.001, 1.0, 10.0])
 
